@@ -259,11 +259,17 @@ pub fn gen_ops(rng: &mut Rng, wl: &Workload, allow_fmt_fail: bool) -> Vec<Op> {
             3 => rng.range(1, n.max(1) + 4),
             _ => rng.range(n / 16 + 1, n + 4),
         };
+        // single calls of exactly a threshold size (and one off)
+        let len = if rng.chance(1, 24) { *rng.pick(&crate::gen::INTERESTING_SIZES) } else { len };
         let op = match rng.weighted(&w) {
             0 => Op::Write(len),
             1 => Op::WriteAll(len),
             2 => {
-                let k = rng.range(1, 4);
+                // mostly a handful of slices; now and then many (thresholds such as 16 or IOV_MAX)
+                let k = match rng.below(40) {
+                    0 => *rng.pick(&[16usize, 17, 64, 1024, 1025]),
+                    _ => rng.range(1, 4),
+                };
                 let mut lens = Vec::new();
                 let mut left = len;
                 for i in 0..k {
